@@ -39,6 +39,13 @@ def direct(c):
     return out
 
 
+def _drop3(v):
+    if v % 3 == 0:
+        import lazy_dataset
+        raise lazy_dataset.FilterException(v)
+    return v
+
+
 def own_key_checks(ld, r, count):
     """datasets derived by filtering, reshuffling, local shuffling or prefetching (no keys()) must still pair
     every yielded example with its OWN key in items(), or refuse items() loudly"""
@@ -61,6 +68,11 @@ def own_key_checks(ld, r, count):
             'reshuffle_prefetch': lambda d: d.shuffle(True, rng=np.random.RandomState(seed)).prefetch(1, 2),
             'filter_reshuffle?': lambda d: d.shuffle(True, rng=np.random.RandomState(seed)).filter(F.PyQ(('QP', ('PLt', 8)))),
             'catch': lambda d: d.catch(),
+            # examples dropped by a catching stage: the survivors keep their own keys
+            'catch_drop': lambda d: d.map(_drop3).catch(),
+            'catch_drop_cls': lambda d: d.map(_drop3).catch(ld.FilterException),
+            'prefetch1_catch_drop': lambda d: d.map(_drop3).prefetch(1, 2, catch_filter_exception=True),
+            'catch_drop_slice': lambda d: d[::-1].map(_drop3).catch(),
             'slice_reshuffle': lambda d: d[::-1].shuffle(True, rng=np.random.RandomState(seed)),
             'one_time_shuffle': lambda d: d.shuffle(False, rng=np.random.RandomState(seed)),
             'sort': lambda d: d.sort(lambda x: -x),
@@ -95,7 +107,7 @@ def run(tier):
     cnt = 200 if tier == 'quick' else 3000
     for msg in own_key_checks(common.import_impl(), common.rng_for('C03own'), cnt)[:5]:
         res['failures'].append(dict(kind='program', summary=msg[:700]))
-    res['coverage']['own_key_pipelines'] = cnt * 10
+    res['coverage']['own_key_pipelines'] = cnt * 14
     return res
 
 
